@@ -35,6 +35,24 @@ Theorem C20_strangers_frame : forall s t n,
 Proof. exact strangers_frame. Qed.
 Print Assumptions C20_strangers_frame.
 
+(* sale status changes only by the owner's signature: whenever a name is on sale after a
+   transaction, it was on sale before for the same owner at the same price, or the transaction
+   is that owner's own sell transaction at that price.  In particular a purchase (live or of an
+   expired name) never leaves the buyer's name on sale at the previous owner's price. *)
+Theorem C20_listing_authored : forall s t n d',
+  reg (deliver s t).1 !! n = Some d' -> d_onsale d' = true -> listing_ok s (t_op t) n d'.
+Proof. exact listing_authored. Qed.
+Print Assumptions C20_listing_authored.
+
+(* over histories: the owner of an on-sale name signed a sell transaction for it at that price
+   while owning it (or the listing was already there at the start) *)
+Theorem C20_history_listing_authored : forall evs s n d',
+  reg (run s evs) !! n = Some d' -> d_onsale d' = true ->
+  (exists d, reg s !! n = Some d /\ d_onsale d = true /\ d_owner d = d_owner d' /\ d_price d = d_price d')
+  \/ listed_by s evs n (d_owner d') (d_price d').
+Proof. exact history_listing_authored. Qed.
+Print Assumptions C20_history_listing_authored.
+
 (* a failed transaction leaves no trace at all *)
 Theorem C20_failed_no_trace : forall s t s', deliver s t = (s', false) -> s' = s.
 Proof. exact deliver_failed. Qed.
@@ -123,7 +141,8 @@ Print Assumptions C20_purchase_expiry_partial.
 Definition C20_e (h : Z) : env :=
   {| e_h := h; e_v := h - 1; e_opts := {| o_perblock := 1; o_base := 5; o_tlds := ["ol"] |} |}.
 Definition C20_tx (h : Z) (o : op) : event :=
-  Tx {| t_op := o; t_env := C20_e h; t_payer := signer o; t_fee := Some 1 |}.
+  Tx {| t_op := o; t_env := C20_e h; t_payer := signer o; t_fee := Some 1;
+        t_static_ok := true; t_nil_benef := false |}.
 Definition C20_witness : list event :=
   [ C20_tx 2 (Create 0%N (Some 0%N) ["n";"ol"] true "http://x.y" 100); EndBlock;
     C20_tx 3 (Sell 0%N ["n";"ol"] 20 false); EndBlock;
@@ -169,7 +188,8 @@ Proof. vm_compute. repeat split. Qed.
 Example C20_nonvacuous :
   let s0 := init_state {[ 0%N := 1000; 1%N := 1000 ]} in
   let s3 := run s0 (take 4 C20_witness) in
-  let t := {| t_op := Purchase 1%N (Some 1%N) ["n";"ol"] 30; t_env := C20_e 4; t_payer := 1%N; t_fee := Some 1 |} in
+  let t := {| t_op := Purchase 1%N (Some 1%N) ["n";"ol"] 30; t_env := C20_e 4; t_payer := 1%N; t_fee := Some 1;
+             t_static_ok := true; t_nil_benef := false |} in
   (deliver s3 t).2 = true /\
   (d_owner <$> reg s3 !! ["n";"ol"]) = Some 0%N /\
   (d_owner <$> reg (deliver s3 t).1 !! ["n";"ol"]) = Some 1%N /\
